@@ -695,6 +695,10 @@ func recordC10Part(env *Env, rng *rand.Rand, count int, part int) {
 		if rng.Intn(5) < 2 {
 			indel = 1
 		}
+		wantBig := big > 0 && i%17 == 3 // the very long sequences are scanned without indels, whatever the draw
+		if wantBig {
+			indel = 0
+		}
 		e := rng.Intn(5)
 		plen := patLenClass(rng)
 		if e >= plen {
@@ -731,7 +735,7 @@ func recordC10Part(env *Env, rng *rand.Rand, count int, part int) {
 		if indel == 1 && slen*plen > 12000 { // the Sellers scan of the trace specification costs |S| x |P|
 			slen = 12000 / plen
 		}
-		if big > 0 && indel == 0 && i%17 == 3 {
+		if wantBig {
 			slen = 6000 + rng.Intn(4000)
 			big--
 		}
